@@ -41,6 +41,7 @@ struct World {
 	uint64_t hashes = 0, shortcutTaken = 0, rebinds = 0;
 	bool sawRebindThenHash = false, pendingRebind = false;
 	bool datasetsEnabled = false;
+	std::vector<int> pastKeys; // keys VMs of this history were bound with earlier
 	bool fullMemAllowed = false;
 	explicit World(Rng& r) : rng(r) {}
 
@@ -104,6 +105,7 @@ struct World {
 		const uint8_t* memBefore = v.vm->getMemory();
 		api::setCache(v.vm, caches[cs].c);
 		if (sameKey && memBefore == (const uint8_t*)randomx_get_cache_memory(caches[cs].c)) shortcutTaken++;
+		if (v.key >= 0 && v.key != caches[cs].key) pastKeys.push_back(v.key);
 		v.cache = cs; v.key = caches[cs].key; v.valid = true; ++rebinds; pendingRebind = true;
 		return true;
 	}
@@ -190,7 +192,10 @@ struct World {
 			if (w < 34) { int v = pickVm(true); done = v >= 0 && opHash(v, (int)rng.below(NINPUTS)); }
 			else if (w < 44) { int v = pickVm(true); done = allowBatch && v >= 0 && opBatch(v, 1 + (int)rng.below(6), [this] { randomSideOp(); }); }
 			else if (w < 58) { int v = pickVm(false), c = pickCache(true); done = v >= 0 && c >= 0 && opSetCache(v, c); }
-			else if (w < 66) { int c = pickCache(false); done = c >= 0 && opInitCache(c, (int)rng.below(NKEYS)); }
+			else if (w < 66) { int c = pickCache(false); int k = (int)rng.below(NKEYS);
+				// half of the time re-key to a key some live VM is (or was) bound with: the "nothing changed" shortcuts compare keys
+				if (rng.chance(1, 2)) { std::vector<int> ks; for (auto& v : vms) if (v.vm && v.key >= 0) ks.push_back(v.key); for (int pk : pastKeys) ks.push_back(pk); if (!ks.empty()) k = ks[rng.below(ks.size())]; }
+				done = c >= 0 && opInitCache(c, k); }
 			else if (w < 72) { int c = pickFreeCache(); done = c >= 0 && opAllocCache(c, randomCacheFlags()); }
 			else if (w < 77) { int c = pickCache(false); done = c >= 0 && opReleaseCache(c); }
 			else if (w < 85) { int v = pickFreeVm(); int c = pickCache(true); int d = pickDs(); const bool full = d >= 0 && rng.chance(1, 2);
@@ -215,7 +220,11 @@ struct World {
 
 	// ---- scenario templates (DESIGN.md C03, T1..T9), instantiated for a light VM class
 	void scenario(int t, int vmFlags) {
-		const int k = (int)rng.below(NKEYS), k2 = (k + 1 + (int)rng.below(NKEYS - 1)) % NKEYS, in = (int)rng.below(NINPUTS);
+		const int k = (int)rng.below(NKEYS), in = (int)rng.below(NINPUTS);
+		int k2 = (k + 1 + (int)rng.below(NKEYS - 1)) % NKEYS;
+		// keys 2 and 3 differ only beyond byte 60: same SuperscalarHash programs, different cache content. Templates that look for
+		// stale generated code need keys with different programs
+		if ((t == 10 || t == 11 || t == 4) && k + k2 == 5 && k * k2 == 6) k2 = (int)rng.below(2);
 		const int cf = randomCacheFlags() & ~RANDOMX_FLAG_LARGE_PAGES;
 		note("scenario", "T" + std::to_string(t) + "," + flagsName(vmFlags));
 		switch (t) {
@@ -242,6 +251,13 @@ struct World {
 			opDestroyVm(0); opCreateVm(0, vmFlags, 1, -1, rng.chance(1, 2)); opHash(0, in); break;
 		case 8: // redundant init with the unchanged key -> hash
 			opAllocCache(0, cf); opInitCache(0, k); opCreateVm(0, vmFlags, 0, -1, rng.chance(1, 2)); opHash(0, in); opInitCache(0, k); opHash(0, in); opSetCache(0, 0); opHash(0, (in + 2) % NINPUTS); break;
+		case 10: // re-bind to another cache object, then re-key THAT object to the key the VM was bound with before -> set_cache -> hash
+			opAllocCache(0, cf); opInitCache(0, k); opAllocCache(1, randomCacheFlags() & ~RANDOMX_FLAG_LARGE_PAGES); opInitCache(1, k2); opCreateVm(0, vmFlags, 0, -1, rng.chance(1, 2)); opHash(0, in);
+			opSetCache(0, 1); opHash(0, in); opInitCache(1, k); opSetCache(0, 1); opHash(0, in); opBatch(0, 2, nullptr); break;
+		case 11: { // the mirrored order: other object re-keyed to a third key, VM re-bound to the first object, first object re-keyed to that third key
+			const int k3 = (k2 + 1 + (int)rng.below(NKEYS - 2)) % NKEYS == k ? (k2 + 1) % NKEYS : (k2 + 1 + (int)rng.below(NKEYS - 2)) % NKEYS;
+			opAllocCache(0, cf); opInitCache(0, k); opAllocCache(1, cf); opInitCache(1, k2); opCreateVm(0, vmFlags, 0, -1, rng.chance(1, 2));
+			opSetCache(0, 1); opHash(0, in); opInitCache(1, k3); opSetCache(0, 0); opHash(0, in); opInitCache(0, k3); opSetCache(0, 0); opHash(0, in); opSetCache(0, 1); opHash(0, in); } break;
 		default: // T9: release -> allocate (same address) -> init *other* key -> set_cache -> hash
 			opAllocCache(0, cf); opInitCache(0, k); opCreateVm(0, vmFlags, 0, -1, rng.chance(1, 2)); opHash(0, in);
 			opReleaseCache(0); opAllocCache(0, cf); opInitCache(0, k2); opSetCache(0, 0); opHash(0, in); break;
@@ -305,19 +321,19 @@ RXV_SUBCOMMAND(c03) {
 
 	const int lightClasses[] = { 0, RANDOMX_FLAG_HARD_AES, RANDOMX_FLAG_JIT, RANDOMX_FLAG_JIT | RANDOMX_FLAG_HARD_AES, RANDOMX_FLAG_JIT | RANDOMX_FLAG_SECURE, RANDOMX_FLAG_JIT | RANDOMX_FLAG_SECURE | RANDOMX_FLAG_HARD_AES, RANDOMX_FLAG_SECURE, RANDOMX_FLAG_LARGE_PAGES };
 	for (uint64_t h = 0; h < nHist; ++h) {
-		W.log.clear(); W.lastKind.clear(); W.sawRebindThenHash = false; W.pendingRebind = false;
+		W.log.clear(); W.lastKind.clear(); W.sawRebindThenHash = false; W.pendingRebind = false; W.pastKeys.clear();
 		const uint64_t global = args.shard + args.nshards * h;
 		const bool templ = (global & 1) == 0;
 		if (templ) {
-			int cls = lightClasses[(global / 2 / 9) % 8]; if (!(W.hw & RANDOMX_FLAG_HARD_AES)) cls &= ~RANDOMX_FLAG_HARD_AES;
-			W.scenario(1 + (int)((global / 2) % 9), cls);
+			int cls = lightClasses[(global / 2 / 11 + global / 2) % 8]; if (!(W.hw & RANDOMX_FLAG_HARD_AES)) cls &= ~RANDOMX_FLAG_HARD_AES;
+			W.scenario(1 + (int)((global / 2) % 11), cls);
 			R.count("scenario_templates");
 		}
 		for (uint64_t o = 0; o < opsPer; ++o) W.randomOp();
 		W.cleanup();
 		R.count("histories"); R.evaluation();
 		if (W.sawRebindThenHash) { R.nontrivial(fnv1a(W.historyJson().data(), W.historyJson().size())); R.count("rebind_followed_by_hash"); }
-		if (h < 2) R.sample("{\"history\":" + W.historyJson() + "}");
+		if (h < 2 || (h < 8 && args.num("samples_all", 0))) R.sample("{\"history\":" + W.historyJson() + "}", 10);
 	}
 	for (int d = 0; d < NDS; ++d) if (W.dss[d].d) api::releaseDataset(W.dss[d].d);
 	for (auto& kv : W.opCount) R.count("op:" + kv.first, kv.second);
